@@ -18,6 +18,7 @@ Concrete replays are judged a second time by titanfp's own interpreter where it 
 """
 PROPERTY = 'C12'
 LEVEL = 'translation_validation'
+FPY_RUN_LIMIT_S = 8      # corpus programs evaluate in milliseconds; a re-read function still running after this long counts as not returning
 BUDGET_S = {'quick': 3600, 'thorough': 14400}
 
 from . import tv, corpus_fpc
@@ -279,11 +280,11 @@ def run_task(task):
                     e.require(False, info={'variant': lab, 'reading the core back raised': g[1]}, tag=lab)
                 continue
             try:
-                got = ('ok', norm(tv.with_timeout(lambda: rt.eval(g, sa.build(), None, convert=False), tv.RUN_LIMIT_S)))
+                got = ('ok', norm(tv.with_timeout(lambda: rt.eval(g, sa.build(), None, convert=False), FPY_RUN_LIMIT_S)))
             except tv.TransformTimeout:
                 # the core has a value on this path (the reference returned); the FPy side is still running
                 if want[0] == 'ok':
-                    e.require(False, info={'variant': lab, 'FPy side did not return within %d s on this path' % tv.RUN_LIMIT_S: True}, tag=lab)
+                    e.require(False, info={'variant': lab, 'FPy side did not return within %d s on this path' % FPY_RUN_LIMIT_S: True}, tag=lab)
                 continue
             except Exception as ex:  # noqa
                 got = ('raise', ex)
@@ -393,10 +394,10 @@ def judge_concrete(task, args):
                 problems.append((lab, 'reading the core back raised %s' % g[1]))
             continue
         try:
-            got = ('ok', norm(tv.with_timeout(lambda: byte.BytecodeInterpreter().eval(g, tuple(args), None, convert=False), tv.RUN_LIMIT_S)))
+            got = ('ok', norm(tv.with_timeout(lambda: byte.BytecodeInterpreter().eval(g, tuple(args), None, convert=False), FPY_RUN_LIMIT_S)))
         except tv.TransformTimeout:
             if want[0] == 'ok':
-                problems.append((lab, 'reference %s, the FPy side did not return within %d s' % (tv._show(want[1]), tv.RUN_LIMIT_S)))
+                problems.append((lab, 'reference %s, the FPy side did not return within %d s' % (tv._show(want[1]), FPY_RUN_LIMIT_S)))
             continue
         except Exception as ex:  # noqa
             got = ('raise', repr(ex)[:160])
